@@ -271,7 +271,7 @@ REG = {
     },
     "C11": {
         "level": "exploration",
-        "technique": "model-based testing of registry histories (rapid): barrier-sequenced histories of dial / hello / further messages / close / SendActiveMessage over 2..4 keys and 2..8 connections against a key->owner model, plus one racing group per history (two hellos on a free key, close racing a hello) judged by invariants and a routing probe; TestC11Mixed: duplicates of online keys and connections with free keys saying hello at the same instant (known outcome); TestC11Stall: terminals saying hello while the session manager is stalled (0.2 s / 3.4 s) behind a terminal that stopped reading; TestC11Cold: rounds of fresh servers whose very first registry operations (commands for unknown keys, hellos of the first terminals) are released by one spin barrier, then duplicates and commands judged against the one-registry model",
+        "technique": "model-based testing of registry histories (rapid): barrier-sequenced histories of dial / hello / further messages / close / SendActiveMessage over 2..4 keys and 2..8 connections against a key->owner model, plus one racing group per history (two hellos on a free key, close racing a hello) judged by invariants and a routing probe; TestC11Mixed: duplicates of online keys and connections with free keys saying hello at the same instant (known outcome); TestC11Stall: terminals saying hello while the session manager is stalled (0.2 s / 3.4 s) behind a terminal that stopped reading; TestC11Cold: rounds of fresh servers whose very first registry operations (commands for unknown keys, hellos of the first terminals) are released by one spin barrier, then duplicates and commands judged against the one-registry model; TestC11KeyFunc: the same registry rules under custom key functions (keys only from register/authentication messages; keys with a prefix stripped, including the empty key), fixed skeleton with drawn parameters",
         "level_text": "Sequential steps are awaited through their own observable (reply received, EOF seen, call returned) so the model is exact: a hello on a free key is admitted (join callback with nil error, reply), on an owned key refused (join callback with error, no reply, EOF) without disturbing the owner; closing frees exactly that key; commands reach the owner's socket only; offline keys give the not-exist error within 1 s; messages with another phone never re-key; each successful join has exactly one leave with the same key on the same server connection. Racing groups: exactly one of two simultaneous hellos wins and the probe command lands on the winner.",
         "level_note": "Leave processing after a client-side close is awaited by a 40 ms pause; verdicts that depend on it are soft evidence (re-run, 2 of 3). Interleavings are sampled, not enumerated.",
         "rule": "rapid histories of 6..30 macro steps; non-trivial = the history contains a refused duplicate and a successful re-join of a key",
@@ -282,6 +282,7 @@ REG = {
             rapid("sys", "TestC11Stall", 3, 30, qs=8, ts=16),
             rapid("sys", "TestC11Mixed", 40, 600, qs=8, ts=16),
             rapid("sys", "TestC11Cold", 3, 40, qs=8, ts=16),
+            rapid("sys", "TestC11KeyFunc", 6, 60, qs=8, ts=16),
         ],
     },
     "C20": {
